@@ -88,6 +88,10 @@ func (vm *VotingMachine) CollectVote(vote hotstuff.VoteMsg) {
 }
 
 func (vm *VotingMachine) verifyCert(cert hotstuff.PartialCert, block *hotstuff.Block) {
+	if cert.Signature() == nil || cert.Signature().Participants().Len() != 1 {
+		vm.logger.Info("vote must be signed by exactly one replica")
+		return
+	}
 	if err := vm.auth.VerifyPartialCert(cert); err != nil {
 		vm.logger.Infof("vote could not be verified: %v", err)
 		return
